@@ -1,4 +1,5 @@
 import PyramidModel.Gen.C05
+import PyramidModel.TopoSort
 /-!
 C05 — executable model of the permission mediation around view bodies.
 
@@ -63,6 +64,7 @@ structure ViewStmt where
   preds : List Nat
   wrapper : Option Nat   -- `wrapper=` view name
   act : Nat              -- what the body does: 0 = returns a response, k > 0 = raises exception kind k
+  deco : Bool := false   -- `decorator=` given (user code that runs when the view is called, before the inner view)
   vdOwn : Option PermArg := none   -- the view is a class carrying its OWN `__view_defaults__` (with this `permission`)
   vdBase : Option PermArg := none  -- a base class of the view carries `__view_defaults__` (with this `permission`)
 deriving DecidableEq, Repr
@@ -119,6 +121,7 @@ structure DView where
   guard : Option Nat     -- the permission `_secured_view` baked in (none: not wrapped)
   wrapper : Option Nat
   act : Nat
+  deco : Bool := false
 deriving DecidableEq, Repr
 
 /-- `config/views.py:206-226` `viewdefaults` (wrapped around `add_view` and the forbidden / notfound / exception
@@ -154,7 +157,7 @@ deriving Repr
 def deriveOne (policy : Bool) (dflt : PermArg) (v : ViewStmt) (excVariant : Bool) : DView :=
   { tag := v.tag, name := v.name, route := v.route, ctxClass := v.ctxClass, exc := excVariant, order := v.order,
     preds := v.preds, guard := if policy then effPerm dflt (stmtPerm v) excVariant else none,
-    wrapper := v.wrapper, act := v.act }
+    wrapper := v.wrapper, act := v.act, deco := v.deco }
 
 /-- `add_view.register`: `if not exception_only: normal variant`, `if isexc: exception variant` -/
 def deriveBoth (policy : Bool) (dflt : PermArg) (v : ViewStmt) : List DView :=
@@ -203,6 +206,7 @@ inductive Layer
   | predicated
   | secured
   | owrapped
+  | decorated
   | other
 deriving DecidableEq, Repr
 
@@ -210,6 +214,7 @@ def layerOf (s : String) : Layer :=
   if s = "predicated_view" then .predicated
   else if s = "secured_view" then .secured
   else if s = "owrapped_view" then .owrapped
+  else if s = "decorated_view" then .decorated
   else .other
 
 /-- outermost first: the order in which the layers of a derived view are ENTERED, observed on the tree under test by
@@ -217,6 +222,48 @@ replacing every deriver with a tracing one (`Gen.C05.probedWrapping`; `["unknown
 def chainNames : List String := Pyr.Gen.C05.probedWrapping
 
 def chain : List Layer := chainNames.map layerOf
+
+/-! ### the deriver sorter under user additions / replacements (through C18's model of `TopologicalSorter`) -/
+
+/-- a user `add_view_deriver(f, name=…, under=…, over=…)` (none = argument not given) -/
+structure DeriverOp where
+  name : String
+  under : Option (List String)
+  over : Option (List String)
+deriving Repr, DecidableEq
+
+def insStr (x : String) : List String → List String
+  | [] => [x]
+  | y :: ys => if x ≤ y then x :: y :: ys else y :: insStr x ys
+
+/-- `as_sorted_tuple` -/
+def sortStrs (l : List String) : List String := (l.foldr insStr []).eraseDups
+
+/-- `add_view_deriver`'s normalisation: defaults `under='decorated_view'`, `over='rendered_view'`; everything that is
+over VIEW is over `mapped_view` too -/
+def normOp (o : DeriverOp) : String × List String × List String :=
+  let under := sortStrs (o.under.getD ["decorated_view"])
+  let over := sortStrs (o.over.getD ["rendered_view"])
+  let over := if over.contains "VIEW" && o.name != "mapped_view" then sortStrs (over ++ ["mapped_view"]) else over
+  (o.name, under, over)
+
+/-- the live sorter's result for the default derivers (recorded hints, `Gen.C05.probedHints`) followed by the user's
+additions in execution order; `none` = the sorter raises -/
+def sortedDerivers (ops : List DeriverOp) : Option (List String) :=
+  let all := Pyr.Gen.C05.probedHints ++ ops.map normOp
+  let known := (all.map (·.1)).eraseDups
+  let id := fun (s : String) => if s = "INGRESS" then 0 else if s = "VIEW" then 1 else 20 + known.idxOf s
+  let s0 : Pyr.Topo.Sorter := { defBefore := none, defAfter := some [0], first := 0, last := 1 }
+  let addOps : List Pyr.Topo.AddOp := all.map fun h => { name := id h.1, after := some (h.2.1.map id), before := some (h.2.2.map id) }
+  match (s0.addAll addOps).sorted with
+  | .ok ids => some (ids.map fun i => known.getD (i - 20) "?")
+  | _ => none
+
+/-- outermost first, for a configuration with user additions -/
+def chainNamesFor (ops : List DeriverOp) : List String :=
+  match sortedDerivers ops with
+  | some l => ["attr_wrapped_view", "predicated_view"] ++ l
+  | none => ["unknown"]
 
 /-- what `__call_permissive__` is bound to: everything under the `secured` layer -/
 def afterSecured : List Layer → List Layer
@@ -230,6 +277,7 @@ inductive Event
   | permits (ctx perm : Nat) (ans : Bool)
   | body (tag : Nat) (exc : Bool) (ctx : Nat) (guard : Option Nat)
   | mainRaised (kind : Nat)
+  | deco (tag : Nat) (ctx : Nat) (guard : Option Nat)   -- the user's decorator code of view `tag` is entered
 deriving DecidableEq, Repr
 
 inductive Outcome
@@ -269,6 +317,11 @@ def runLayers (wrap : Nat → Res) (pol : Nat → Nat → Bool) (truePreds : Lis
         let r2 := wrap w
         (r.1 ++ r2.1, match r2.2 with | .none => .raised kValueError | o => o)
       | _ => r
+  | .decorated :: rest =>
+    if d.deco then
+      let r := runLayers wrap pol truePreds ctx d rest
+      (.deco d.tag ctx d.guard :: r.1, r.2)
+    else runLayers wrap pol truePreds ctx d rest
   | .other :: rest => runLayers wrap pol truePreds ctx d rest
 
 /-- `getattr(view, '__call_permissive__', view)(context, request)` -/
